@@ -130,6 +130,7 @@ func mcEvents(family string, c sut.Config, o sut.Obs, iss map[string]int) []sut.
 			ev(sut.Event{Act: "Probe", B: b})
 			ev(sut.Event{Act: "Probe", B: b, K: "alt1"})
 			ev(sut.Event{Act: "Probe", B: b, K: "bare"})
+			ev(sut.Event{Act: "Get", B: b, K: "login"})
 			for _, m := range []string{c.LogoutMethod, "GET"} {
 				ev(sut.Event{Act: "Logout", B: b, Method: m})
 			}
@@ -309,6 +310,9 @@ func mcEvents(family string, c sut.Config, o sut.Obs, iss map[string]int) []sut.
 		}
 		for _, a := range []string{"TotpSetup", "SmsSetupGet", "RecoveryRegen"} {
 			ev(sut.Event{Act: a, B: "b1"})
+		}
+		for _, k := range []string{"totpConfirm", "totpRemove", "smsConfirm", "recoveryRegen"} {
+			ev(sut.Event{Act: "Get", B: "b1", K: k})
 		}
 		for _, t := range rng1(iss["ts"]) {
 			for _, k := range []int{1, -1} {
